@@ -6,7 +6,7 @@ import Mathlib.Tactic.IntervalCases
 import Mathlib.Tactic.Linarith
 import WebpVerif.Lemmas.EncHuffCodes
 import WebpVerif.Lemmas.PrefixFree
-import WebpVerif.Lemmas.HuffTop
+import WebpVerif.Lemmas.HuffTotal
 
 /-!
 # C01 — VP8L decoding matches the lossless specification for every valid stream
@@ -222,14 +222,33 @@ theorem huffman_tree_single (ls : List Nat) (hall : ∀ l ∈ ls, l ≤ 15) (s :
     Prefix.validLengths ls = true ∧ ∀ bits : List Nat, Huff.readSym (Huff.build ls) bits = Prefix.decodeSymbol ls bits :=
   Huff.build_single_spec ls hall s hs
 
-/-- stated, not proved (the builder's totality): every valid code is accepted.  The missing part
-    is that the depth loop never meets a `Leaf` and ends on an `Empty` node, which needs the
-    soundness of every leaf and the absence of aliasing between paths; it is validated on every
-    run (the crate, the model and the specification agree on validity for every generated
-    vector, complete, incomplete and over-subscribed) -/
-def huffman_tree_accepts_valid : Prop :=
-  ∀ ls : List Nat, (∀ l ∈ ls, l ≤ 15) → ls.length ≤ 5000 → Prefix.validLengths ls = true →
-    ∃ b, Huff.build ls = b ∧ b matches .ok _ | .single _
+/-- **Every valid code is accepted.**  For EVERY length vector that is a valid code of the
+    specification (lengths ≤ 15, one used symbol or a complete code; up to 5000 symbols) the
+    builder returns a tree: the depth loop never meets a `Leaf` and always ends on an `Empty`
+    node.  Proved through the soundness of every leaf and branch of the secondary trees (a leaf
+    at a path is the symbol with exactly that word; a branch lies strictly inside the word of an
+    inserted symbol) and the absence of aliasing (children are allocated fresh, so a node is
+    reached from one slot by one path only), with the prefix-freeness of the canonical code. -/
+theorem huffman_tree_accepts_valid (ls : List Nat) (hall : ∀ l ∈ ls, l ≤ 15) (hn : ls.length ≤ 5000)
+    (hv : Prefix.validLengths ls = true) : (∃ t, Huff.build ls = .ok t) ∨ (∃ s, Huff.build ls = .single s) :=
+  Huff.build_total ls hall hn hv
+
+/-- **`HuffmanTree` = the specification's symbol decoder** (model level): accepted exactly when
+    valid, and then reading exactly the same symbols -/
+theorem huffman_tree_is_spec (ls : List Nat) (hall : ∀ l ∈ ls, l ≤ 15) (hn : ls.length ≤ 5000) :
+    ((∃ t, Huff.build ls = .ok t) ∨ (∃ s, Huff.build ls = .single s) ↔ Prefix.validLengths ls = true) ∧
+    (Prefix.validLengths ls = true → ∀ bits : List Nat, (∀ b ∈ bits, b < 2) → 15 ≤ bits.length →
+      Huff.readSym (Huff.build ls) bits = Prefix.decodeSymbol ls bits) := by
+  constructor
+  · constructor
+    · rintro (⟨t, ht⟩ | ⟨s, hs⟩)
+      · exact (huffman_tree_reads_spec ls hall hn t ht).1
+      · exact (huffman_tree_single ls hall s hs).1
+    · exact huffman_tree_accepts_valid ls hall hn
+  · intro hv bits hb hlen
+    rcases huffman_tree_accepts_valid ls hall hn hv with ⟨t, ht⟩ | ⟨s, hs⟩
+    · exact (huffman_tree_reads_spec ls hall hn t ht).2 bits hb hlen
+    · exact (huffman_tree_single ls hall s hs).2 bits
 
 -- non-vacuity: a complete code is accepted and read (the runtime tie exercises secondary trees
 -- on every run; kernel evaluation of a 12-bit code takes minutes)
